@@ -211,7 +211,7 @@ const TURNS: usize = 16;
 /// turns of this single-threaded runtime, during which the speaker's socket is drained
 async fn quiesce(t: &mut Tcp) {
     let mut quiet = 0;
-    let hard = tokio::time::Instant::now() + Duration::from_secs(5);
+    let hard = tokio::time::Instant::now() + Duration::from_secs(30);
     while quiet < TURNS && tokio::time::Instant::now() < hard {
         let mut got = false;
         let mut closed = false;
@@ -264,15 +264,54 @@ fn take_types(t: &mut Tcp) -> Vec<u8> {
     out
 }
 
-async fn connect(listener: &tokio::net::TcpListener, from: IpAddr) -> Option<(TcpStream, TcpStream)> {
+async fn connect_once(listener: &tokio::net::TcpListener, from: IpAddr) -> Option<(TcpStream, TcpStream)> {
     let sock = tokio::net::TcpSocket::new_v4().ok()?;
     let _ = sock.set_reuseaddr(true);
     sock.bind(SocketAddr::new(from, 0)).ok()?;
     let laddr = listener.local_addr().ok()?;
-    let (c, s) = tokio::join!(sock.connect(laddr), listener.accept());
-    let (c, s) = (c.ok()?, s.ok()?.0);
+    // (the listener is shared: a connection left over from an attempt that timed out is skipped)
+    let (c, s) = tokio::time::timeout(Duration::from_secs(20), async {
+        let c = sock.connect(laddr).await.ok()?;
+        let me = c.local_addr().ok()?;
+        loop {
+            let (s, from) = listener.accept().await.ok()?;
+            if from == me {
+                return Some((c, s));
+            }
+        }
+    })
+    .await
+    .ok()??;
     let _ = c.set_nodelay(true);
     Some((c, s))
+}
+
+/// (a busy machine may be out of ports for a moment: try for a while before giving the case up)
+async fn connect(listener: &tokio::net::TcpListener, from: IpAddr) -> Option<(TcpStream, TcpStream)> {
+    for k in 0..120u64 {
+        if let Some(x) = connect_once(listener, from).await {
+            return Some(x);
+        }
+        tokio::time::sleep(Duration::from_millis(200 + 20 * k.min(40))).await;
+    }
+    None
+}
+
+fn shared_listener() -> Option<tokio::net::TcpListener> {
+    static L: std::sync::OnceLock<Option<std::net::TcpListener>> = std::sync::OnceLock::new();
+    let l = L
+        .get_or_init(|| {
+            for _ in 0..240 {
+                if let Ok(l) = std::net::TcpListener::bind("127.0.0.1:0") {
+                    let _ = l.set_nonblocking(true);
+                    return Some(l);
+                }
+                std::thread::sleep(Duration::from_millis(500));
+            }
+            None
+        })
+        .as_ref()?;
+    tokio::net::TcpListener::from_std(l.try_clone().ok()?).ok()
 }
 
 fn session_up(w: &World) -> bool {
@@ -325,9 +364,9 @@ pub(super) async fn run_tcp(evs: Vec<Ev>) -> String {
         svc,
         close_rx: None,
     };
-    let listener = match tokio::net::TcpListener::bind("127.0.0.1:0").await {
-        Ok(l) => l,
-        Err(_) => return "(tcp-setup-failed)".into(),
+    // one listening socket per harness process, duplicated for this case's runtime (no bind per case)
+    let Some(listener) = shared_listener() else {
+        return "(tcp-setup-failed listen)".into();
     };
     let mut t = Tcp {
         client: None,
@@ -347,7 +386,7 @@ pub(super) async fn run_tcp(evs: Vec<Ev>) -> String {
                     None
                 };
                 match connect(&listener, addr).await {
-                    None => note = Some("connect-failed"),
+                    None => return "(tcp-setup-failed connect)".into(),
                     Some((client, server)) => {
                         // the listener arm of `serve`: accept_connection, spawn `run`, keep the join handle
                         match accept_connection(&w.global, &w.tables, server, crate::fsm::Role::Passive).await {
@@ -407,7 +446,7 @@ pub(super) async fn run_tcp(evs: Vec<Ev>) -> String {
                 t.client = None;
             }
             Ev::Attempt => match connect(&listener, addr).await {
-                None => note = Some("connect-failed"),
+                None => return "(tcp-setup-failed connect)".into(),
                 Some((client, server)) => {
                     if let Some(h) =
                         accept_connection(&w.global, &w.tables, server, crate::fsm::Role::Passive).await
